@@ -30,7 +30,9 @@ ASSUMPTIONS = [
 ADOPT_ALL = True
 INPUTS = ['in/a', 'in/b', 'in/flag0', 'in/flag1']
 OUT_POOL = ['o/x', 'o/y', 'o/d/x', 'o/d/y', 'o/d/e/x', 'o/d/e/y', 'o/d/f/x', 'p/x', 'p/q/y', 'o/d/e/z']
-UNIV = gen.make_universe((), 0, tuple(INPUTS + OUT_POOL))
+# targets of functions that always fail: never visible to anybody at any time, so *other* tasks may query them
+FAIL_POOL = ['o/d/e/fail1', 'o/r/fail2']
+UNIV = gen.make_universe((), 0, tuple(INPUTS + OUT_POOL + FAIL_POOL))
 CFG = gen.cfg_with(universe=UNIV, caches=['cache.gz', 'cache.gz', 'cd/cache.gz'])
 
 
@@ -93,6 +95,20 @@ def par_program(draw, cfg, cache):
             flag = 'in/flag%d' % (t % 2)
             block = [['if', ['q', 'exists', flag, 'METADATA'], block, []]]
         tasks.append(block)
+    if draw(st.booleans()):
+        # one task builds a file whose function always fails; the other tasks watch its target: it must never be visible
+        fp = draw(st.sampled_from(FAIL_POOL))
+        fbody = draw(st.sampled_from([[['write'], ['raise']], [['raise']], [], [['write'], ['ret_nonjson']]]))
+        ffn = new_func('file', fbody)
+        owner = draw(st.integers(0, ntasks - 1))
+        for t in range(ntasks):
+            blk = tasks[t][0][2] if tasks[t] and tasks[t][0][0] == 'if' else tasks[t]
+            if t == owner:
+                blk.insert(draw(st.integers(0, len(blk))), ['bf', fp, ffn, [], draw(st.sampled_from(['METADATA', 'HASH'])), True])
+            else:
+                for _ in range(draw(st.integers(1, 3))):
+                    blk.insert(draw(st.integers(0, len(blk))),
+                               ['qa', draw(st.sampled_from(['is_file', 'exists', 'read_text', 'get_size', 'declare_read'])), fp, 'METADATA'])
     root = []
     if draw(st.sampled_from(range(4))) == 0 and pool:
         path = pool.pop(0)
